@@ -45,7 +45,7 @@ def expected_binary(kind, text, scratch):
     os.makedirs(d, exist_ok=True)
     if kind == 'x':
         sp = os.path.join(d, 'e.x')
-        open(sp, 'w').write(text)
+        open(sp, 'w', encoding='latin-1').write(text)
         r = subprocess.run([build.exe('xtool'), 'accept', sp], stdout=subprocess.PIPE, stderr=subprocess.PIPE, env=driver.san_env(), cwd=d, timeout=60)
         if r.returncode != 0:
             return None
@@ -57,7 +57,7 @@ def expected_binary(kind, text, scratch):
         p = os.path.join(d, 'xtool.out.bin')
         return open(p, 'rb').read() if os.path.exists(p) else None
     sp = os.path.join(d, 'e.S')
-    open(sp, 'w').write(text)
+    open(sp, 'w', encoding='latin-1').write(text)
     r = subprocess.run([build.exe('asmtool'), sp, '--out', os.path.join(d, 'e.bin')], stdout=subprocess.PIPE, stderr=subprocess.PIPE, env=driver.san_env(), cwd=d, timeout=60)
     if r.returncode != 0:
         return None
@@ -138,7 +138,7 @@ def run_history(ops, scratch):
     for step, op in enumerate(ops):
         k = op['op']
         if k == 'write':
-            open(os.path.join(d, op['name']), 'w').write(op['text'])
+            open(os.path.join(d, op['name']), 'w', encoding='latin-1').write(op['text'])
             continue
         if k == 'precreate':
             open(os.path.join(d, op['name']), 'wb').write(b'MARKER-' + op['name'].encode())
